@@ -39,7 +39,7 @@ func (e Ev) MarshalJSON() ([]byte, error) {
 	return json.Marshal(struct{ ID int }{e.ID})
 }
 
-var hkinds = []string{"sync", "async", "once", "seq", "filtered", "panic", "async-panic"}
+var hkinds = []string{"sync", "async", "once", "seq", "filtered", "panic", "async-panic", "async-seq"}
 var pmodes = []string{"none", "ok", "fail", "unencodable", "timeout"}
 
 type workload struct {
@@ -47,6 +47,10 @@ type workload struct {
 	Cancel   bool  `json:"precancelled"`
 	Persist  int   `json:"persist"`
 	Observer int   `json:"observer"` // 0 recording, 1 OpenTelemetry (all spans sampled), 2 OpenTelemetry with a sampler that drops every trace, 3 OpenTelemetry with a meter provider only (no-op tracer)
+	// CancelRace: the publish context is cancelled by another task at an explored point:
+	// before, between or after the publishes, and in particular after an asynchronous
+	// invocation was dispatched (or queued behind another one) and before it starts
+	CancelRace bool `json:"cancel_race,omitempty"`
 }
 
 func (w workload) String() string {
@@ -55,7 +59,11 @@ func (w workload) String() string {
 		hs = append(hs, hkinds[x])
 	}
 	obs := []string{"recording", "otel", "otel-never-sample", "otel-metrics-only"}[w.Observer]
-	return fmt.Sprintf("[%s] precancelled=%v persist=%s observer=%s", strings.Join(hs, " "), w.Cancel, pmodes[w.Persist], obs)
+	cr := ""
+	if w.CancelRace {
+		cr = " cancelled-by-another-task"
+	}
+	return fmt.Sprintf("[%s] precancelled=%v%s persist=%s observer=%s", strings.Join(hs, " "), w.Cancel, cr, pmodes[w.Persist], obs)
 }
 
 // ---- stores
@@ -218,12 +226,20 @@ func (in *inst) Body() {
 			eventbus.Subscribe(bus, func(e Ev) { in.rec.Add("enter", i, e.ID, "p"); panic("boom") })
 		case "async-panic":
 			eventbus.Subscribe(bus, func(e Ev) { in.rec.Add("enter", i, e.ID, "p"); panic("boom") }, eventbus.Async())
+		case "async-seq":
+			eventbus.Subscribe(bus, func(e Ev) { in.rec.Add("enter", i, e.ID, ""); vrt.Point() }, eventbus.Async(), eventbus.Sequential())
 		}
 	}
 	ctx, cancel := context.WithCancel(context.Background())
 	defer cancel()
 	if w.Cancel {
 		cancel()
+	}
+	if w.CancelRace {
+		vrt.Go(func() {
+			vrt.Point()
+			cancel()
+		})
 	}
 	for _, id := range pubIDs {
 		in.rec.Add("call", id, 0, "")
@@ -416,6 +432,14 @@ func workloads(thorough bool) []workload {
 		}
 	}
 	rec(nil)
+	// cancellation racing the dispatch of asynchronous invocations
+	for _, hs := range [][]int{{1}, {7}, {1, 7}, {7, 0}, {6}, {7, 7}} {
+		for _, p := range []int{0, 1} {
+			for _, obs := range []int{0, 1} {
+				l = append(l, workload{H: hs, Persist: p, Observer: obs, CancelRace: true})
+			}
+		}
+	}
 	return l
 }
 
@@ -434,7 +458,16 @@ func run(c *h.Check) {
 			c.Note(fmt.Sprintf("deadline after %d of %d workloads", i, len(ws)))
 			return
 		}
-		c.Explore(scenario(w), bound, 500, false)
+		maxE := 500
+		for _, k := range w.H {
+			if hkinds[k] == "async-seq" {
+				maxE = 50000
+			}
+		}
+		if w.CancelRace {
+			maxE = 50000
+		}
+		c.Explore(scenario(w), bound, maxE, false)
 		if i%2000 == 0 {
 			c.Sample(map[string]any{"workload": w.String()})
 		}
